@@ -37,12 +37,18 @@ class StopRun(kernel.SimBaseException):
     pass
 
 
+import re as _re
+_ADDR = _re.compile(r"0x[0-9a-fA-F]{6,}")
+
+
 def _jsonable(x):
+    """JSON-able copy with memory addresses (object reprs inside messages)
+    blanked: they differ between processes and must not enter a digest."""
     try:
-        json.dumps(x)
-        return x
+        s = json.dumps(x, default=repr, sort_keys=True)
     except (TypeError, ValueError):
-        return repr(x)
+        s = json.dumps(repr(x))
+    return json.loads(_ADDR.sub("0x?", s))
 
 
 class RunContext(object):
@@ -69,7 +75,8 @@ class RunContext(object):
 
     # history -------------------------------------------------------------
     def event(self, *fields):
-        s = json.dumps(fields, default=repr, sort_keys=True)
+        s = _ADDR.sub("0x?", json.dumps(fields, default=repr,
+                                        sort_keys=True))
         self.h.update(s.encode())
         self.h.update(b"\n")
         self.nevents += 1
@@ -173,9 +180,26 @@ def run_in_process(spec, cls, scenario, known, emit):
                           fatal=False)
             verdict = "violation" if ctx.violation_rec else "ok"
         res = ctx.result(verdict)
-    except BaseException:
-        res = ctx.result("harness_error")
-        res["error"] = traceback.format_exc()
+    except BaseException as e:
+        tb = traceback.extract_tb(e.__traceback__)
+        src = os.path.realpath(spec.SRC_DIR)
+        if tb and os.path.realpath(tb[-1].filename).startswith(src) and \
+                not isinstance(e, kernel.SimBaseException):
+            # the library raised inside a call the harness expected to
+            # succeed on any tree where the property holds: that is a
+            # violation of the property, not a harness failure
+            ctx.violation("%s.library_raised" % spec.PROPERTY,
+                          dict(exc=type(e).__name__, msg=str(e)[:200],
+                               where="%s:%d in %s" % (
+                                   os.path.basename(tb[-1].filename),
+                                   tb[-1].lineno, tb[-1].name),
+                               called_from="%s:%d" % (
+                                   os.path.basename(tb[0].filename),
+                                   tb[0].lineno)), fatal=False)
+            res = ctx.result("violation" if ctx.violation_rec else "ok")
+        else:
+            res = ctx.result("harness_error")
+            res["error"] = traceback.format_exc()
     emit(res)
 
 
